@@ -145,12 +145,33 @@ func checkC12(c *Check) {
 					okLoop = false
 				}
 				c.Cond(okLoop, "1/kill-reap", rel+"."+fn.Name()+":until-error", p.Pos(fn.Pos()), "reaps until wait4 reports no more children", "the reaper can stop while children remain")
+				// ... and it reaps the whole group: the wait target is the negated group id (or -1), with no option that
+				// narrows the set of children waited for (__WCLONE, __WNOTHREAD) or makes the wait return early (WNOHANG)
+				for _, ci := range callInstrs(fn) {
+					if n, _ := calleeOf(ci); strings.HasSuffix(n, ".Wait4") {
+						a := stripConv(ci.Common().Args[0])
+						grp := false
+						if u, ok := a.(*ssa.UnOp); ok && u.Op == token.SUB {
+							_, grp = stripConv(u.X).(*ssa.Parameter)
+						}
+						if v, ok := constInt(a); ok && v == -1 {
+							grp = true
+						}
+						opt, isC := constInt(ci.Common().Args[2])
+						narrow := int64(0x80000000 | 0x20000000 | 1) // __WCLONE | __WNOTHREAD | WNOHANG
+						c.Cond(grp && isC && opt&narrow == 0, "1/kill-reap", rel+"."+fn.Name()+":whole-group", p.Pos(ci.Pos()), "waits for any member of the killed group, blocking",
+							fmt.Sprintf("the reaper waits for %s with options %s: processes of the run other than that target are killed but never collected (zombies pinned by the tracer)", describe(ci.Common().Args[0]), describe(ci.Common().Args[2])))
+					}
+				}
 			}
 		}
 	}
 	checkContainerReap(c)
 	checkDestroyKillsAndReaps(c, "1/kill-reap")
-	c.Expect("1/kill-reap", 10)
+	// a launch that failed after the clone is killed and collected (C07.3: helper kills, then waits with options 0,
+	// retried on EINTR; every error return of the parent passes it)
+	importObs(c, "C07", "C07.3/fail-kill-reap", "1/kill-reap", nil)
+	c.Expect("1/kill-reap", 18)
 
 	// ---------- 2: descriptor pairing ----------
 	checkDescriptorPairing(c)
